@@ -8,7 +8,7 @@ from a816.parse.codegen import generate_opcode
 from a816.parse.errors import ParserSyntaxError
 from a816.parse.parser_states import parse_opcode
 from vf.specs import isa65816, le, syntax
-from vf.specs.supported_set import SUPPORTED
+from vf.specs.supported_set import SUPPORTED, SUPPORTED_FORMS
 
 WIDTH = {"b": 1, "w": 2, "l": 3}
 
@@ -163,6 +163,31 @@ def statement_tokens_contract(p, resolver, shape, size_text, mnemonic, operand_t
     else:
         check("operand_is_the_operand_tokens", [t.token for t in node.value_node.expression.tokens] == operand_tokens)
         check("operand_resolver", node.value_node.resolver is resolver and node.resolver is resolver)
+
+
+def statement_bytes_contract(p, resolver, addr, shape, size_text, mnemonic, v):
+    """END TO END from the token list of one instruction statement (any mnemonic of the live table, any operand shape of the
+    statement, optional suffix in either case, operand `e` bound to ANY value 0 <= v < 2**24): the real parse_opcode ->
+    generate_opcode -> OpcodeNode.emit either produce exactly the ISA opcode of the form the SYNTAX denotes at the explicit /
+    inferred width followed by the little-endian operand, or reject the statement -- and a statement of the supported set is
+    never rejected.  (No appeal to the assembler's own addressing-mode names.)"""
+    assume(0 <= v and v < 0x1000000)
+    w = lower_size(size_text) if size_text is not None else smallest_width(v)
+    form = syntax.form(shape, w)
+    expected = isa65816.opcode(mnemonic, form, w)
+    try:
+        a = parse_opcode(p)
+        code = generate_opcode(a, resolver, {}, a.file_info)
+        r = code[0].emit(addr)
+    except (ParserSyntaxError, KeyError, NodeError):
+        check("supported_statement_accepted", (mnemonic, form, None if form == "imp" else w) not in SUPPORTED_FORMS)
+        return
+    check("only_isa_instructions", expected is not None)
+    check("opcode_of_the_denoted_form", r[0] == expected)
+    if shape == "implied":
+        check("implied_is_one_byte", len(r) == 1)
+    else:
+        check("operand_le_at_the_width", le.is_le(r[1:], v, WIDTH[w]))
 
 
 def opcode_node_size_agreement_contract(node, addr, v):
